@@ -196,6 +196,13 @@ def check_classifiers(rep, prog):
                     bad = "severity 0x%02X flags 0x%04X: isServiceable=%s, documented=%s" % (sv, a, got, want)
     rep.check(bad is None, "C07.R2.atoms", "serviceable iff (non-informational, report 0x2000, not hidden) or (informational, service action 0x8000)",
               "UserHeader.isServiceable", "isServiceable", bad)
+    # the classifiers are total: no value of the action flags / severity makes them raise (a conversion to an enum / flag
+    # class that refuses undefined bits would make the whole PEL unselectable)
+    from .c12 import tries_covering
+    rs = [x for x in I.events if x.kind == "raise" and x.guard != FALSE and not tries_covering(I.events, x) and not pelx.unsat(x.guard)[0]]
+    rep.check(not rs, "C07.R2.atoms", "isHidden / isServiceable are defined for every action flag word and severity byte", rs[0].func if rs else "UserHeader",
+              rs[0].node if rs else "isHidden", "the classifier raises %s when %s: such a PEL cannot be selected by any option" % (
+                  repr(rs[0].data[0])[:80] if rs else "", repr(rs[0].guard)[:160] if rs else ""), node=rs[0].node if rs else None)
 
 
 def check_lookups_recorded(rep, cli, by_attr, rule):
